@@ -24,9 +24,9 @@ set_option linter.unusedSimpArgs false
 theorem src_sideOk (n total mo : Nat) (cb : Bool) :
     Generated.cellsLen_sideOk n ∧ Generated.maxOffset_sideOk total cb ∧ Generated.payloadLen_sideOk mo := by
   refine ⟨?_, ?_, ?_⟩
-  · simp only [Generated.cellsLen_sideOk] <;> src_arith
-  · simp only [Generated.maxOffset_sideOk] <;> src_arith
-  · simp only [Generated.payloadLen_sideOk] <;> src_arith
+  · simp only [Generated.cellsLen_sideOk]; src_arith
+  · simp only [Generated.maxOffset_sideOk]; src_arith
+  · simp only [Generated.payloadLen_sideOk]; src_arith
 
 /-- `cells_len` is the number of base-256 digits of `cells_num`. -/
 theorem src_cellsLen_eq (n : Nat) : Generated.cellsLen n = Py.byteWidth n := by
@@ -43,8 +43,8 @@ theorem src_payloadLen_eq (mo : Nat) : Generated.payloadLen mo = Py.byteWidth mo
 /-- `max_offset` is the largest value written into an offset field: the payload length, doubled with cache bits. -/
 theorem src_maxOffset_eq (total : Nat) (cb : Bool) :
     Generated.maxOffset total cb = if cb then 2 * total else total := by
-  simp only [Generated.maxOffset]
-  cases cb <;> src_arith
+  simp only [Generated.maxOffset] <;>
+    (cases cb <;> src_arith)
 
 /-- widths_sufficient (cell count / cell indices): `cells_num` and every index `i < cells_num` fit `cells_len` bytes. -/
 theorem src_cellsLen_sufficient (n i : Nat) (hi : i ≤ n) : i < 256 ^ Generated.cellsLen n := by
